@@ -1,6 +1,6 @@
-(** C01 — the output stage of [Renderer::process_chunk] (backend/renderer.rs): clamp both
-    channels to [-1, 1], then one channel = mean of left and right; two or more = left, right
-    and silence on the extra channels. *)
+(** C01 — the output stage of [Renderer::process_chunk] (backend/renderer.rs): both channels go
+    through [finite_clamped] (NaN -> 0.0, everything else clamped to [-1, 1]), then one channel =
+    mean of left and right; two or more = left, right and silence on the extra channels. *)
 From Coq Require Import ZArith List Bool.
 From KV Require Import Base.IEEE Base.Outcome.
 Import ListNotations.
@@ -14,8 +14,21 @@ Definition zero32 : f32 := Z32 0.
 (** [f32::clamp(-1.0, 1.0)] *)
 Definition clamp_unit (x : f32) : f32 := clamp32 x m1_32 p1_32.
 
+(** [finite_clamped] (backend/renderer.rs): `if sample.is_nan() { 0.0 } else { sample.clamp(-1.0, 1.0) }` *)
+Definition finite_clamped (x : f32) : f32 := if isnan32 x then zero32 else clamp_unit x.
+
 (** the samples written for one frame (l, r) of the mixer bus, for [n] device channels *)
 Definition out_stage (n : nat) (l r : f32) : list f32 :=
+  let l' := finite_clamped l in
+  let r' := finite_clamped r in
+  match n with
+  | O => []
+  | 1%nat => [div32 (add32 l' r') two32]
+  | S (S extra) => l' :: r' :: repeat zero32 extra
+  end.
+(** the stage as it was before the repair (`frame.left.clamp(-1.0, 1.0)` alone): kept as the
+    counter-model of the regression theorem — Rust's [clamp] returns NaN for NaN *)
+Definition out_stage_old (n : nat) (l r : f32) : list f32 :=
   let l' := clamp_unit l in
   let r' := clamp_unit r in
   match n with
